@@ -193,6 +193,17 @@ def template(tid):
         v[...] = [1, 2, 1]
         v = f.createVariable('Q', 'd', ('t', 'x'))
         v[...] = [[1, 2], [3, 2], [5, 1]]
+    elif tid == 'T11':
+        # a variable that uses one dimension twice (an averaging kernel)
+        f.createDimension('t', 2).setunlimited(True)
+        f.createDimension('lev', 3)
+        v = f.createVariable('AK', 'd', ('t', 'lev', 'lev'))
+        v[...] = _tok((2, 3, 3), 1100, 'd')
+        v = f.createVariable('AKM', 'f', ('lev', 'lev'), fill_value=-9.)
+        v[...] = np.ma.masked_array(_tok((3, 3), 1150, 'f'),
+                                    mask=[[0, 1, 0], [0, 0, 0], [0, 0, 1]])
+        v = f.createVariable('B', 'd', ('t', 'lev'))
+        v[...] = _tok((2, 3), 1170, 'd')
     elif tid == 'M1':
         # the template of the bounded model spec/PncCore_MC.tla (M1)
         f.createDimension('t', 2).setunlimited(True)
